@@ -30,6 +30,16 @@ class Unsupported(Exception):
 
 FORCE_FORK = 'F'
 MERGE = 'M'
+LOCAL = 'Q'
+
+
+class QFrame:
+    """One local run of a quantifier body: the local decisions taken / still to explore."""
+
+    def __init__(self, prefix):
+        self.prefix = list(prefix)
+        self.decisions = []        # (condition term, decision)
+        self.pending = []
 
 FEAS_TIMEOUT_MS = 5000
 INCREMENTAL_TIMEOUT_MS = 1000
@@ -100,7 +110,9 @@ def is_length_arith(t, _memo=None):
         k = t.decl().kind()
         if k == z3.Z3_OP_SEQ_LENGTH:
             r = True
-        elif k == z3.Z3_OP_UNINTERPRETED and t.num_args() == 0:
+        elif k == z3.Z3_OP_UNINTERPRETED:
+            # a constant, or an application of an uninterpreted function (an opaque integer / boolean term: its
+            # arguments are not inspected, the solver keeps congruence for syntactically equal arguments)
             r = True
         elif k in _arith_ops():
             r = all(is_length_arith(c, _memo) for c in t.children())
@@ -108,39 +120,65 @@ def is_length_arith(t, _memo=None):
     return r
 
 
-def length_abstraction(t):
-    """A formula implied by t that speaks about integers and string lengths only (None = nothing kept)."""
+_ATOMS = {}      # term id -> (term, propositional constant): atoms that are not about lengths
+
+
+def _atom(t):
+    """The propositional constant that stands for the atom t in the length abstraction, and the consequences of t
+    (resp. of its negation) for lengths: (constant, [side facts])."""
+    i = t.get_id()
+    ent = _ATOMS.get(i)
+    if ent is None:
+        ent = (t, z3.Bool('atom!%d' % i))
+        _ATOMS[i] = ent          # (keeps t alive: its id is not reused)
+    b = ent[1]
+    side = []
+    if z3.is_app(t):
+        k = t.decl().kind()
+        if k == z3.Z3_OP_EQ and z3.is_string(t.arg(0)):
+            side.append(z3.Implies(b, z3.Length(t.arg(0)) == z3.Length(t.arg(1))))
+        elif k in (z3.Z3_OP_SEQ_PREFIX, z3.Z3_OP_SEQ_SUFFIX):
+            side.append(z3.Implies(b, z3.Length(t.arg(0)) <= z3.Length(t.arg(1))))
+        elif k == z3.Z3_OP_SEQ_CONTAINS:
+            side.append(z3.Implies(b, z3.Length(t.arg(1)) <= z3.Length(t.arg(0))))
+    return b, side
+
+
+def length_abstraction(t, side=None):
+    """The length abstraction of a quantifier-free formula: its propositional structure is kept, atoms about
+    integers and string lengths are kept, every other atom becomes a propositional constant (the same constant
+    for the same atom) with its consequences for lengths (`a == b` ==> equal lengths, prefix / contains ==>
+    not longer) collected in `side`.  Every model of a set of formulas gives a model of their abstractions, so
+    what the abstraction entails is entailed."""
+    if side is None:
+        side = []
     if is_length_arith(t):
         return t
-    if not z3.is_app(t):
+    if z3.is_quantifier(t) or not z3.is_app(t) or not z3.is_bool(t):
         return None
     k = t.decl().kind()
-    if k == z3.Z3_OP_AND:
-        parts = [x for x in (length_abstraction(c) for c in t.children()) if x is not None]
-        return z3.And(*parts) if parts else None
-    if k == z3.Z3_OP_OR:
-        parts = [length_abstraction(c) for c in t.children()]
-        if any(x is None for x in parts):
-            return None
-        return z3.Or(*parts)
-    if k == z3.Z3_OP_IMPLIES:
-        a, b = t.children()
-        if not is_length_arith(a):
-            return None
-        bb = length_abstraction(b)
-        return z3.Implies(a, bb) if bb is not None else None
-    if k == z3.Z3_OP_EQ:
-        a, b = t.children()
-        if z3.is_string(a):
-            return z3.Length(a) == z3.Length(b)
-        return None
-    if k in (z3.Z3_OP_SEQ_PREFIX, z3.Z3_OP_SEQ_SUFFIX):
-        a, b = t.children()
-        return z3.Length(a) <= z3.Length(b)
-    if k == z3.Z3_OP_SEQ_CONTAINS:
-        a, b = t.children()
-        return z3.Length(b) <= z3.Length(a)
-    return None
+    if k in (z3.Z3_OP_AND, z3.Z3_OP_OR, z3.Z3_OP_NOT, z3.Z3_OP_IMPLIES, z3.Z3_OP_IFF) or \
+            (k == z3.Z3_OP_EQ and z3.is_bool(t.arg(0))) or (k == z3.Z3_OP_ITE):
+        parts = []
+        for c in t.children():
+            x = length_abstraction(c, side)
+            if x is None:
+                return None
+            parts.append(x)
+        if k == z3.Z3_OP_AND:
+            return z3.And(*parts)
+        if k == z3.Z3_OP_OR:
+            return z3.Or(*parts)
+        if k == z3.Z3_OP_NOT:
+            return z3.Not(parts[0])
+        if k == z3.Z3_OP_IMPLIES:
+            return z3.Implies(parts[0], parts[1])
+        if k == z3.Z3_OP_ITE:
+            return z3.If(parts[0], parts[1], parts[2])
+        return parts[0] == parts[1]
+    b, more = _atom(t)
+    side.extend(more)
+    return b
 
 
 class PathState:
@@ -172,7 +210,9 @@ class PathState:
         self.side_conditions = []  # stack: in-range conditions collected inside quantifier bodies
         self.fresh_log = []        # every fresh constant, in creation order (for skolemisation in quantifiers)
         self.no_fork = 0           # >0 inside quantifier bodies: a real fork is not allowed
+        self.qframes = []          # local case splits of quantifier bodies (merged by the quantifier model)
         self.known = {}            # z3 term id -> list of (frozenset(scope ids), bool): entailed truth values
+        self.reached = set()       # line numbers of return/raise statements reached (reachability cover)
 
     # ---- naming -----------------------------------------------------------------
     def fresh_name(self, base):
@@ -214,6 +254,15 @@ class PathState:
         t = cond.t if isinstance(cond, SBool) else cond
         self._add(self._scoped(t))
 
+    def assume_unscoped(self, cond):
+        """A fact about a symbolic object itself (shape constraint, invariant): the object is cached and
+        outlives the merge scope it happens to be created in, so the fact must not be guarded by it."""
+        if isinstance(cond, bool):
+            if not cond:
+                self.assume(cond)
+            return
+        self._add(cond.t if isinstance(cond, SBool) else cond)
+
     def _add(self, t):
         self.pc.append(t)
         # The feasibility solver only sees quantifier-free facts: satisfiability of quantified
@@ -223,9 +272,12 @@ class PathState:
             self.established[c.get_id()] = c
             if not _has_quantifier(c):
                 self.solver.add(c)
-                la = length_abstraction(c)
+                side = []
+                la = length_abstraction(c, side)
                 if la is not None:
                     self.len_solver.add(la)
+                for f in side:
+                    self.len_solver.add(f)
 
     def is_established(self, t):
         """t (the condition of a merge scope that has been left) is known to hold on this path: it is a
@@ -237,6 +289,10 @@ class PathState:
             return True
         if self._not_established.get(i) == len(self.pc):
             return False
+        cs = _conjuncts(t)
+        if len(cs) > 1 and all(self.is_established(c) for c in cs):
+            self.established[i] = t
+            return True
         if not _has_quantifier(t) and self.must_hold(t):
             self.established[i] = t
             return True
@@ -255,9 +311,12 @@ class PathState:
             for c in _conjuncts(t):
                 if not _has_quantifier(c):
                     self.solver.add(c)
-                    la = length_abstraction(c)
+                    side = []
+                    la = length_abstraction(c, side)
                     if la is not None:
                         self.len_solver.add(la)
+                    for f in side:
+                        self.len_solver.add(f)
 
     def check(self, *extra):
         """sat / unsat / unknown of pc + scopes + extra."""
@@ -294,7 +353,29 @@ class PathState:
                     f.write('; %s %.2fs\n' % (r, dt) + sv.to_smt2())
         if dt > 1.0:
             self.stats.setdefault('slow_queries', []).append((round(dt, 2), str(r), [str(e)[:200] for e in extra]))
+            import os as _os
+            if _os.environ.get('PYVC_DUMP_SLOW'):
+                k = self.stats['feasibility_queries']
+                s2 = z3.Solver()
+                s2.add(*(list(self.pc)))
+                with open('%s-%d.smt2' % (_os.environ['PYVC_DUMP_SLOW'], k), 'w') as f:
+                    f.write('; %.2fs %s\n' % (dt, r) + s2.to_smt2())
+                s2 = z3.Solver()
+                s2.add(*(list(self.scopes) + list(extra)))
+                with open('%s-%d-assumptions.smt2' % (_os.environ['PYVC_DUMP_SLOW'], k), 'w') as f:
+                    f.write('; %.2fs %s\n' % (dt, r) + s2.to_smt2())
         return r
+
+    def infeasible_site(self):
+        """True iff the current assumptions (pc + scopes) are contradictory.  The answer is recorded in the
+        decision log so that replays of the path do not ask the solver again."""
+        d = self._next_decision()
+        if d in ('cu', 'cs'):
+            self.decisions.append(d)
+            return d == 'cu'
+        d = 'cu' if self.check() == z3.unsat else 'cs'
+        self.decisions.append(d)
+        return d == 'cu'
 
     def is_feasible(self, t):
         r = self.check(t)
@@ -311,7 +392,7 @@ class PathState:
     def _len_check(self, t):
         sc = []
         for x in self.scopes:
-            la = length_abstraction(x)
+            la = length_abstraction(x, sc)
             if la is not None:
                 sc.append(la)
         self.stats['length_queries'] = self.stats.get('length_queries', 0) + 1
@@ -339,7 +420,7 @@ class PathState:
         self.stats['length_queries'] = self.stats.get('length_queries', 0) + 1
         sc = []
         for x in self.scopes:
-            la = length_abstraction(x)
+            la = length_abstraction(x, sc)
             if la is not None:
                 sc.append(la)
         r = self.len_solver.check(*(sc + [z3.Not(t)]))
@@ -390,7 +471,8 @@ class PathState:
                     self._record_known(t, can_t)
             if can_t and can_f:
                 if self.no_fork:
-                    raise Unsupported('case split inside a quantifier body on %s' % str(t)[:300])
+                    self.decisions.append(LOCAL)
+                    return self._local_fork(t)
                 self.pending.append(self.decisions + [False])
                 d = True
             elif can_t:
@@ -401,9 +483,44 @@ class PathState:
                 raise PathAbort()
         elif d == MERGE:
             raise AssertionError('decision log out of sync (merge at fork)')
+        elif d == LOCAL:
+            self.decisions.append(LOCAL)
+            return self._local_fork(t)
         self.decisions.append(d)
         self._add(self._scoped(t if d else z3.Not(t)))
         return d
+
+    def _local_fork(self, t):
+        """A case split inside a quantifier body: decided per local run of the body; the quantifier
+        model runs the body once per combination and merges the values (if-then-else on the conditions)."""
+        if not self.qframes:
+            raise Unsupported('case split inside a quantifier body')
+        qf = self.qframes[-1]
+        i = len(qf.decisions)
+        if i < len(qf.prefix):
+            ld = qf.prefix[i]
+        else:
+            ld = True
+            qf.pending.append([x[1] for x in qf.decisions] + [False])
+        c = t if ld else z3.Not(t)
+        qf.decisions.append((c, ld))
+        self.scopes.append(c)       # removed by the quantifier model at the end of this local run
+        return ld
+
+    def _local_choose(self, feas, conds):
+        if not self.qframes or conds is None:
+            raise Unsupported('case split inside a quantifier body')
+        qf = self.qframes[-1]
+        i = len(qf.decisions)
+        if i < len(qf.prefix):
+            ld = qf.prefix[i]
+        else:
+            ld = feas[0]
+            for alt in feas[1:]:
+                qf.pending.append([x[1] for x in qf.decisions] + [alt])
+        qf.decisions.append((conds[ld], ld))
+        self.scopes.append(conds[ld])
+        return ld
 
     def choose(self, n, conds=None, assume_feasible=False):
         """n-way decision.  ``conds[i]`` (optional) is the z3 condition of alternative i.
@@ -414,10 +531,14 @@ class PathState:
             if not feas:
                 raise PathAbort()
             if len(feas) > 1 and self.no_fork:
-                raise Unsupported('case split inside a quantifier body')
+                self.decisions.append((LOCAL, tuple(feas)))
+                return self._local_choose(feas, conds)
             for j in feas[1:]:
                 self.pending.append(self.decisions + [j])
             d = feas[0]
+        elif isinstance(d, tuple) and d and d[0] == LOCAL:
+            self.decisions.append(d)
+            return self._local_choose(list(d[1]), conds)
         self.decisions.append(d)
         if conds is not None:
             self._add(self._scoped(conds[d]))
@@ -475,7 +596,11 @@ class PathState:
             return self
 
         def __exit__(self, et, ev, tb):
-            self.st.scopes.pop()
+            sc = self.st.scopes
+            for k in range(len(sc) - 1, -1, -1):     # conditions of local case splits pushed inside stay
+                if sc[k] is self.t:
+                    del sc[k]
+                    break
             if et is not None and not issubclass(et, (PathAbort, RetryPath, Unsupported)) \
                     and self.site_index is not None:
                 # an exception / control transfer inside a merged operand:
